@@ -14,10 +14,83 @@ from . import core
 from .core import PI, Ctx, PathAbort, SV
 
 
-def mk_solver(timeout_ms):
+class _WatchedSolver:
+    """nlsat does not always honour its timeout parameter (a changed implementation produced a query that ran for
+    20 minutes under a 48 s limit): every check() is additionally guarded by a watchdog thread that interrupts z3
+    shortly after the deadline; an interrupted query is `unknown`."""
+
+    def __init__(self, s, timeout_ms, guarded=False):
+        self._s, self._to, self.guarded = s, timeout_ms, guarded
+
+    def __getattr__(self, n):
+        return getattr(self._s, n)
+
+    def _precheck_in_child(self):
+        """Full-context fallback queries are where nlsat has been seen to ignore both its timeout and the interrupt (inside
+        algebraic-number arithmetic).  Such a query is first run in a forked child under a hard kill; only if the child
+        comes back in time is it run again in this process (deterministic: it then terminates too) to obtain the model."""
+        import select
+        import signal
+
+        rfd, wfd = os.pipe()
+        pid = os.fork()
+        if pid == 0:
+            try:
+                os.close(rfd)
+                try:
+                    r = str(self._s.check())
+                except BaseException:  # noqa
+                    r = "unknown"
+                os.write(wfd, r.encode())
+            finally:
+                os._exit(0)
+        os.close(wfd)
+        try:
+            ready, _, _ = select.select([rfd], [], [], self._to / 1000.0 + 5.0)
+            out = os.read(rfd, 64).decode() if ready else ""
+        finally:
+            os.close(rfd)
+            try:
+                os.kill(pid, signal.SIGKILL)
+            except OSError:
+                pass
+            try:
+                os.waitpid(pid, 0)
+            except OSError:
+                pass
+        return out or "timeout"
+
+    def check(self, *a):
+        import threading
+
+        if self.guarded and not a and not os.environ.get("VERIF_NO_GUARD"):
+            pre = self._precheck_in_child()
+            if pre not in ("sat", "unsat"):
+                return z3.unknown
+        fired = []
+
+        def _stop():
+            fired.append(1)
+            z3.main_ctx().interrupt()
+
+        wd = threading.Timer(self._to / 1000.0 + 3.0, _stop)
+        wd.daemon = True
+        wd.start()
+        try:
+            r = self._s.check(*a)
+        except z3.Z3Exception:
+            if not fired:
+                raise
+            r = z3.unknown
+        finally:
+            wd.cancel()
+        return z3.unknown if fired else r
+
+
+def mk_solver(timeout_ms, guarded=False):
     s = z3.Tactic("qfnra-nlsat").solver()
     s.set("timeout", int(timeout_ms))
-    return s
+    return _WatchedSolver(s, int(timeout_ms), guarded)
 
 
 def _has_arith_nonlinear_free(fs):
@@ -97,6 +170,40 @@ def uf_axioms(C: Ctx):
         # inverse pairs
         ax.append(z3.Implies(z3.And(x1 > 0, x2 == r1, k1 * k2 == 1), r2 == x1))
         ax.append(z3.Implies(z3.And(x1 > 0, x2 * r1 == 1, k1 * k2 == 1), r2 * x1 == 1))
+    if getattr(C, "tangent", False):
+        ax += tangent_axioms(C)
+    return ax
+
+
+def tangent_axioms(C: Ctx):
+    """Quantitative, still sound, instances of convexity facts (used where a tolerance has to be established and
+    monotonicity alone is not enough): exp lies above each of its tangents, log below, and Bernoulli's inequality
+    (1+u)^k >= 1+ku for k >= 1 or k <= 0, <= for 0 <= k <= 1 (u > -1), instantiated at the applications that occur --
+    against the point 0 resp. 1 and pairwise (tangent at the other application)."""
+    ax = []
+    U = C.uf
+    E = U.get("exp", [])
+    for (a, r, _) in E:
+        ax.append(r >= 1 + a[0])
+    for (a1, r1, _), (a2, r2, _) in itertools.permutations(E, 2):
+        ax.append(r2 >= r1 * (1 + (a2[0] - a1[0])))
+    Lg = U.get("log", [])
+    for (a, r, _) in Lg:
+        ax.append(z3.Implies(a[0] > 0, r <= a[0] - 1))
+    for (a1, r1, _), (a2, r2, _) in itertools.permutations(Lg, 2):
+        ax.append(z3.Implies(z3.And(a1[0] > 0, a2[0] > 0), (r2 - r1) * a1[0] <= a2[0] - a1[0]))
+    P = U.get("pow", [])
+    for (a, r, _) in P:
+        x, k = a
+        ax.append(z3.Implies(z3.And(x > 0, z3.Or(k >= 1, k <= 0)), r >= 1 + k * (x - 1)))
+        ax.append(z3.Implies(z3.And(x > 0, k >= 0, k <= 1), r <= 1 + k * (x - 1)))
+    for (a1, r1, _), (a2, r2, _) in itertools.permutations(P, 2):
+        x1, k1 = a1
+        x2, k2 = a2
+        g = z3.And(x1 > 0, x2 > 0, k1 == k2)
+        # r2 / r1 = (x2/x1)^k
+        ax.append(z3.Implies(z3.And(g, z3.Or(k1 >= 1, k1 <= 0)), r2 * x1 >= r1 * (x1 + k1 * (x2 - x1))))
+        ax.append(z3.Implies(z3.And(g, k1 >= 0, k1 <= 1), r2 * x1 <= r1 * (x1 + k1 * (x2 - x1))))
     return ax
 
 
@@ -451,6 +558,8 @@ def check(C: Ctx, claim, timeout_ms=60000, extra=(), inputs=None, with_uf=True, 
     """Is `claim` implied by the context? -> ('unsat'|'sat'|'unknown', time, model dict)."""
     if isinstance(claim, SV):
         claim = claim.term()
+    if JOB_DEADLINE is not None and time.time() > JOB_DEADLINE:
+        return "unknown", 0.0, None  # the job's time budget is exhausted: the obligation is undecided, never waited for
     allc = list(cons if cons is not None else base_constraints(C, with_uf, with_mono)) + list(extra)
     t = time.time()
     r, s = "unknown", None
@@ -462,7 +571,7 @@ def check(C: Ctx, claim, timeout_ms=60000, extra=(), inputs=None, with_uf=True, 
             if r != "unknown":
                 break
     if r == "unknown":
-        s = mk_solver(timeout_ms if not staged else max(2000, timeout_ms * 0.4))
+        s = mk_solver(timeout_ms if not staged else max(2000, timeout_ms * 0.4), guarded=True)
         s.add(*allc)
         s.add(z3.Not(claim))
         try:
@@ -472,7 +581,7 @@ def check(C: Ctx, claim, timeout_ms=60000, extra=(), inputs=None, with_uf=True, 
         C.queries += 1
     elif r == "sat":
         # confirm against all constraints (unconnected components included) so that the model is complete
-        s2 = mk_solver(max(2000, timeout_ms * 0.4))
+        s2 = mk_solver(max(2000, timeout_ms * 0.4), guarded=True)
         s2.add(*allc)
         s2.add(z3.Not(claim))
         try:
@@ -509,6 +618,7 @@ def to_smt2(cons, neg_claim):
 
 
 LAST_ASSERTIONS = None
+JOB_DEADLINE = None  # wall-clock limit of the running job's obligations (set by harness.run_job)
 
 
 def second_opinion(cons, neg_claim, timeout_s=60, assertions=None):
